@@ -45,7 +45,7 @@ struct JsonW {
         ArenaObj<VT> res;
         cx.parses++;
         if (has_long_exponent(text)) {
-            qsim::set_stall_abandon(true);
+            long_exponent_policy();
             qsim::probe("json.long-exponent");
         }
         if (variant == 1) {
